@@ -579,6 +579,52 @@ func (e *Engine) checkValidationLedger(r *Report) {
 					}
 					r.Fail("R2", ck, e.InstrPos(i), "panicking parser "+nm+" called on unvalidated input inside stateless validation")
 				}
+				// sdk.Coins methods that read every coin's amount (Validate, IsValid, IsAllPositive, …) dereference a nil amount:
+				// a coin decoded without its amount field has one. On a message field they need a per-coin IsNil test that
+				// fails, not placed after the call (K-C20-3: MsgBridgeCall.ValidateBasic -> Coins.Validate panicked)
+				if strings.HasSuffix(recvTypeName(x), "cosmos-sdk/types.Coins") && (nm == "Validate" || nm == "IsValid" || nm == "IsAllPositive" || nm == "IsAnyNegative") {
+					args := callArgs(x)
+					if len(args) == 0 {
+						return
+					}
+					fnm, st, ok := fieldNameOfLoad(args[0])
+					if !ok {
+						return
+					}
+					n++
+					ck := key + "|" + lastDot(namedTypeName(st)) + "." + fnm + "." + nm
+					okNil := false
+					allCalls(fn, func(c2 ssa.CallInstruction) {
+						if callName(c2) != "IsNil" || Dominates(x, c2) {
+							return
+						}
+						// the tested coin is an element of the same field
+						a2 := callArgs(c2)
+						if len(a2) == 0 {
+							return
+						}
+						hit := false
+						e.Slice(a2[0], SliceOpts{MaxDepth: 8, ConstLeafOK: true}, func(v ssa.Value) Verdict {
+							if n2, st2, ok := fieldName(v); ok && n2 == fnm && namedTypeName(st2) == namedTypeName(st) {
+								hit = true
+								return Accept
+							}
+							return Continue
+						})
+						if !hit {
+							return
+						}
+						if v2, ok := c2.(ssa.Value); ok {
+							for _, ref := range *v2.Referrers() {
+								if iff, ok := ref.(*ssa.If); ok && BranchFailsClean(iff, true, nil) {
+									okNil = true
+								}
+							}
+						}
+					})
+					r.Check(okNil, "R2", ck, e.InstrPos(i), "every coin of the field is tested with IsNil (-> error) before", "sdk.Coins."+nm+" is called on message field "+fnm+" without a per-coin IsNil test: a coin decoded without its amount field has a nil amount and the call dereferences it (panic in stateless validation)")
+					return
+				}
 				// methods on math.Int struct fields need a dominating IsNil
 				if isBigNumType(recvTypeName(x)) && (fn.Name() == "ValidateBasic" || fn.Name() == "validateBasic" || fn.Name() == "Validate") {
 					args := callArgs(x)
